@@ -74,6 +74,24 @@ def directed(default_params):
             {"op": "reg.generic", "kw": {"occ": 15, "virt": 17}},
             _expr_step(), {"op": "rename.gen", "slot": 0},
         ]))
+    # D3b wide terms: more contracted indices of one space than base letters, targets with
+    # numbered names, with and without spin
+    for sp, letters in (("occ", "ijklmno"), ("virt", "abcdefgh"), ("general", "pqrstuvw")):
+        for spin in ("", "a"):
+            def tk(n):
+                return f"{n}:{spin}" if spin else n
+            names = [ch + "3" for ch in letters] + [ch + "4" for ch in letters[:4]] + \
+                [letters[1], letters[0] + "1"]
+            toks = [tk(n) for n in names]
+            atoms = [["nst", "w", [a, b]] for a, b in zip(toks, toks[1:] + toks[:1])]
+            for targets in ([], [tk(letters[1]), tk(letters[0] + "1")]):
+                out.append((f"wide-{sp}-{spin or 'nospin'}-{len(targets)}t",
+                            dict(P, spin_mode=bool(spin)), [
+                    {"op": "build", "slot": 0, "targets": targets,
+                     "terms": [{"pref": [1, 1], "atoms": atoms}]},
+                    {"op": "rename.sc", "slot": 0}, {"op": "rename.gen", "slot": 0},
+                    {"op": "rename.sc", "slot": 0}, {"op": "rename.minimize", "slot": 0,
+                                                      "pick": 3}]))
     # D4 cycles and chains in every insertion order of the dict
     shapes = {
         "3cycle": [["i", "j"], ["j", "k"], ["k", "i"]],
